@@ -51,6 +51,11 @@ CHECKS.update({
                 text="AGPMulti.tla: S solver records plus an explicit heap for the objects whose sharing can couple instances (Solution.bestTrials lists, value holders), a call stack so that other solvers act exactly where user code runs (between public calls and inside an objective evaluation); with fresh objects per instance every step of one solver leaves every observable of every other solver unchanged (action property Isolated), each solver's own view stays coherent and heap objects are disjoint; with shared default objects (the tree as pinned) TLC refutes Isolated - the negative control. Every schedule TLC enumerates from AGPMultiSched.tla (all interleavings of two solvers' step sequences up to 4+4, schedules with Solve, calls nested in another solver's objective) is replayed on real solvers (created upfront or lazily, separate or shared problem objects; plus three-solver random schedules with batches); after every step of any solver all others are observed; AGPTrace.tla validates each solver against the state the specification holds for it, SeqCompare.tla requires trials and result equal to the solo run and pairwise distinct list/holder objects." + SOLVER_NOTE),
 })
 
+CHECKS.update({
+    "C13": dict(level="model_checking", design="4/C13", technique="TLC exhaustive check of the notification protocol in AGP.tla + TLC trace validation of recorded notification logs for all 8 callback subsets and every shipped listener/mode (AGPTrace.tla) + SeqCompare.tla against listener-free runs + console report compared by TLC",
+                text="AGP.tla checks the notification protocol in every state of its exhaustive exploration (told once before the first trial; the concatenation of OnEndIteration lists is exactly the trial sequence of the completed calls; one OnMethodStop per Solve with the stop status). Bound to the code: listeners derived from the base class overriding each of the 8 subsets of callbacks x batching patterns x N=1..3, and every shipped listener and mode within its documented dimension (console full/custom/result; static 1-D objective function / only points / approximation / interpolation; static N-D lines layers and surface variants; both animation listeners), alone and in combinations, with the recording listener attached before or after them, on random boxes; AGPTrace.tla validates the recorded notification log (NotifBefore, NotifNewPoints, NotifEndIterCount, NotifStopCount, NotifStopFinal, NotifStopStatus), requires every call to return without an internal exception, and compares the console result block parsed from stdout with the Solution (ConsoleReport); SeqCompare.tla requires trial sequence and result to equal the listener-free run." + SOLVER_NOTE),
+})
+
 NOT_YET = {
 }
 
